@@ -239,7 +239,10 @@ impl Shards {
     /// `body` is the inside of a JSON object WITHOUT braces, e.g. `"ev":"dec","n":8`
     pub fn emit(&mut self, body: &str) {
         self.events += 1;
-        if self.keep_every > 1 && self.events % self.keep_every != 1 {
+        // thinning applies to the many independent sample events; the few summary / large-frame / echo events (each the
+        // only witness of a whole code path) are always kept
+        let rare = body.starts_with("\"ev\":\"mathtot\"") || body.starts_with("\"ev\":\"rt_bad\"") || body.contains("\"probe\":1") || body.contains("\"echo\":1");
+        if self.keep_every > 1 && self.events % self.keep_every != 1 && !rare {
             return;
         }
         let line = format!("{{\"id\":{},\"p\":\"{}\",\"b\":\"{}\",{}}}\n", self.events, self.prop, self.build, body);
